@@ -655,6 +655,14 @@ type ReplayOutcome struct {
 func modelToSymbols(ob *Obligation) map[string]string {
 	out := map[string]string{}
 	for name, s := range ob.Vars {
+		if strings.HasPrefix(name, "uf:") {
+			if raw, ok := ob.Model[name]; ok {
+				if v, ok := DecodeValue(raw, s); ok {
+					out[name] = formatValue(v, s)
+				}
+			}
+			continue
+		}
 		if !strings.HasPrefix(name, "sym:") {
 			continue
 		}
